@@ -2,5 +2,43 @@
 
 package podeni
 
+import (
+	"context"
+
+	"k8s.io/client-go/tools/record"
+	"sigs.k8s.io/controller-runtime/pkg/client"
+
+	aliyunClient "github.com/AliyunContainerService/terway/pkg/aliyun/client"
+	register "github.com/AliyunContainerService/terway/pkg/controller"
+	"github.com/AliyunContainerService/terway/pkg/controller/status"
+)
+
 // VerifPodNumaHints exposes podNumaHints to the verification harness.
 func VerifPodNumaHints(anno map[string]string) []int { return podNumaHints(anno) }
+
+// VerifNewReconcilePodENI builds the PodENI reconciler over a harness-provided client, cloud and recorder.
+func VerifNewReconcilePodENI(c client.Client, aliyun register.Interface, rec record.EventRecorder, cache *status.Cache[status.NodeStatus], trunkMode, crdMode bool) *ReconcilePodENI {
+	return &ReconcilePodENI{
+		client:          c,
+		scheme:          c.Scheme(),
+		record:          rec,
+		aliyun:          aliyun,
+		trunkMode:       trunkMode,
+		crdMode:         crdMode,
+		nodeStatusCache: cache,
+	}
+}
+
+// VerifGCRecords runs one pass of the PodENI record collector.
+func (m *ReconcilePodENI) VerifGCRecords(ctx context.Context) { m.gcCRPodENIs(ctx) }
+
+// VerifGCLeaked runs one pass of the leaked-interface collector (secondary, then member interfaces).
+func (m *ReconcilePodENI) VerifGCLeaked(ctx context.Context) {
+	m.gcSecondaryENI(ctx)
+	m.gcMemberENI(ctx)
+}
+
+// VerifGCENIs runs the leaked-interface decision on a given population.
+func (m *ReconcilePodENI) VerifGCENIs(ctx context.Context, enis []*aliyunClient.NetworkInterface) error {
+	return m.gcENIs(ctx, enis)
+}
